@@ -116,7 +116,9 @@ func init() {
 	intrinsics["time.Sleep"] = func(fr *frame, args []value) value { return nil }
 	intrinsics["time.NewTicker"] = func(fr *frame, args []value) value {
 		// *Ticker{C <-chan Time, r runtimeTimer}: only C is used; nothing ever fires it.
-		var c value = structure{make(chan value, 1), nil}
+		ch := make(chan value, 1)
+		fr.i.tickers = append(fr.i.tickers, ch)
+		var c value = structure{ch, nil}
 		return &c
 	}
 	intrinsics["(*time.Ticker).Stop"] = func(fr *frame, args []value) value { return nil }
